@@ -50,7 +50,8 @@ theorem findProp_none_of_ge {props : List Proposal} {n : Nat} {ia ac : Q} (h : Q
 cancelled by its proposer, or it is the freshly submitted one -/
 theorem step_findProp (s : State) (op : Op) (hne : ∀ dt stk, op ≠ .endBlock dt stk) (hq : QInv s) (pid : Nat) :
     findProp (step s op).1.props pid = findProp s.props pid ∨
-    (∃ p who amt, findProp s.props pid = some p ∧ isOpenSt p.status = true ∧ op = .deposit pid who amt ∧ amt ≠ 0 ∧
+    (∃ p who amt, findProp s.props pid = some p ∧ isOpenSt p.status = true ∧
+        (op = .deposit pid who amt ∨ ∃ other, op = .depositX pid who amt other) ∧ amt ≠ 0 ∧
         findProp (step s op).1.props pid = some (afterDeposit s p amt)) ∨
     (∃ who p, op = .cancel pid who ∧ findProp s.props pid = some p ∧ isOpenSt p.status = true ∧
         findProp (step s op).1.props pid = none) ∨
@@ -94,7 +95,26 @@ theorem step_findProp (s : State) (op : Op) (hne : ∀ dt stk, op ≠ .endBlock 
         rw [findProp_depositEffect s p who amt hp pid]
         by_cases hid : pid = p.id
         · subst hid
-          refine Or.inr (Or.inl ⟨p, who, amt, hp, ho, rfl, ?_, by simp⟩)
+          refine Or.inr (Or.inl ⟨p, who, amt, hp, ho, Or.inl rfl, ?_, by simp⟩)
+          simpa using hamt
+        · simp [hid]
+    · exact Or.inl rfl
+  | depositX pid' who amt other =>
+    simp only [step, Model.C15.ofExcept]
+    split
+    · rename_i s' h
+      have h := (depositX_ok h).2
+      unfold deposit at h
+      split at h
+      · cases h
+      · rename_i hamt
+        obtain ⟨p, hp, ho, rfl⟩ := addDeposit_ok h
+        have hpid : p.id = pid' := findProp_id hp
+        subst hpid
+        rw [findProp_depositEffect s p who amt hp pid]
+        by_cases hid : pid = p.id
+        · subst hid
+          refine Or.inr (Or.inl ⟨p, who, amt, hp, ho, Or.inr ⟨other, rfl⟩, ?_, by simp⟩)
           simpa using hamt
         · simp [hid]
     · exact Or.inl rfl
